@@ -176,7 +176,7 @@ Section SZ.
   Qed.
 
   Lemma sz_args : forall args, Forall szc args ->
-    forall st l st', subst_with (fun y => cmp' y) args st = Ok (l, st') -> incl (flat_map tocc args) U ->
+    forall st l st', subst_with (fun y => cmp' y) args st = Ok (l, st') -> incl (flat_map occ_arg args) U ->
     cz_args k l + lz st' <= lz st + PL args.
   Proof.
     intros args H. induction H as [|y r Hy Hr IH]; intros st l st' Hs Hi.
@@ -186,7 +186,9 @@ Section SZ.
       pose proof (IH _ _ _ Hrest Hi2) as Hr'. rewrite PL_cons. cbn [cz_args].
       apply compile_arg_inv in Ha. destruct Ha as [[v [ty [ty0 [Ey [Ety [Ea Est]]]]]]|[Hn [ty0 [c [Ety [Ec Ea]]]]]].
       + subst. cbn [cz_arg cz_term]. rewrite P_var. pose proof Q_eq. lia.
-      + subst a. cbn [cz_arg]. pose proof (Hy _ _ _ _ Ec Hi1). lia.
+      + subst a. cbn [cz_arg]. assert (E : occ_arg y = tocc y).
+        { unfold occ_arg, occ_arg_with. destruct y; try reflexivity. destruct chi as [[|]|]; try reflexivity. contradiction. }
+        rewrite E in Hi1. pose proof (Hy _ _ _ _ Ec Hi1). lia.
   Qed.
 
   (* one clause of a `case`, any continuation *)
@@ -230,7 +232,7 @@ Section SZ.
 
   (* free bindings of translated argument lists / clause lists are in U *)
   Lemma args_in_U : forall args st l st', subst_with (fun y => cmp' y) args st = Ok (l, st') ->
-    incl (flat_map tocc args) U -> forall bb, In bb (fva l) -> In bb U.
+    incl (flat_map occ_arg args) U -> forall bb, In bb (fva l) -> In bb U.
   Proof.
     intros args st l st' Hs Hi bb Hb. apply Hi. eapply occ_args; eauto.
     apply Forall_forall. intros y _. apply occ_cmp.
@@ -320,7 +322,7 @@ Section SZ.
       assert (HA : Forall szc args). { eapply Forall_impl; [|exact H]. intros a [_ Ca]. exact Ca. }
       assert (HW : szw (FCall f args ret)).
       { intros cont st s0 st' H0 Hc Hi. rewrite wc_unfold in H0. apply wc_call_inv in H0.
-        destruct H0 as [args' [ret0 [Hargs [Eret Es]]]]. subst s0. cbn [tocc] in Hi.
+        destruct H0 as [args' [ret0 [Hargs [Eret Es]]]]. subst s0. cbn [tocc] in Hi. fold occ_arg in Hi.
         pose proof (sz_args args HA _ _ _ Hargs Hi). rewrite P_call, cz_stmt_call, cz_args_app. cbn [cz_args cz_arg].
         pose proof Q_eq. lia. }
       split; [exact HW|].
@@ -332,11 +334,11 @@ Section SZ.
       assert (HC : forall ty0' st c st', cmp' (FCtor x args ty) ty0' st = Ok (c, st') -> incl (tocc (FCtor x args ty)) U ->
                    zt c + lz st' + 3 <= lz st + P (FCtor x args ty)).
       { intros ty0' st c st' H0 Hi. rewrite cmp_unfold in H0. apply cmp_ctor_inv in H0.
-        destruct H0 as [args' [ty0 [Hargs [Ety Ec]]]]. subst c. cbn [tocc] in Hi.
+        destruct H0 as [args' [ty0 [Hargs [Ety Ec]]]]. subst c. cbn [tocc] in Hi. fold occ_arg in Hi.
         pose proof (sz_args args HA _ _ _ Hargs Hi). rewrite P_ctor, cz_term_xtor. pose proof Q_eq. lia. }
       split.
       + intros cont st s0 st' H0 Hc Hi. rewrite wc_unfold in H0. apply wc_ctor_inv in H0.
-        destruct H0 as [args' [ty0 [Hargs [Ety Es]]]]. subst s0. cbn [tocc] in Hi.
+        destruct H0 as [args' [ty0 [Hargs [Ety Es]]]]. subst s0. cbn [tocc] in Hi. fold occ_arg in Hi.
         pose proof (sz_args args HA _ _ _ Hargs Hi). rewrite P_ctor. cbn [cz_stmt]. rewrite cz_term_xtor. pose proof Q_eq. lia.
       + intros ty0' st c st' H0 Hi. pose proof (HC _ _ _ _ H0 Hi). lia.
     - (* FDtor *)
@@ -345,7 +347,7 @@ Section SZ.
       assert (HW : szw (FDtor t x targs args ty)).
       { intros cont st s0 st' H0 Hc Hi. rewrite wc_unfold in H0. apply wc_dtor_inv in H0.
         destruct H0 as [args' [st1 [sty0 [Hargs [Esty Hscrut]]]]].
-        cbn [tocc] in Hi. apply incl_app_inv in Hi. destruct Hi as [Hi1 Hi2].
+        cbn [tocc] in Hi. fold occ_arg in Hi. apply incl_app_inv in Hi. destruct Hi as [Hi1 Hi2].
         pose proof (sz_args args HA _ _ _ Hargs Hi2) as Sa.
         assert (Hk : cok (CXtor CCns (new_id x) (args' ++ [CConsumer cont]) (compile_ty sty0))).
         { apply (cok_sub _ cont); [exact I | exact Hc|]. intros bb Hb. apply fvt_xtor in Hb. apply fva_app in Hb.
